@@ -91,10 +91,12 @@ def check_base_order(ctx, F):
                 for ref in self_refs(F, i):
                     if ref not in decl_order or i.get("tid") not in decl_order:
                         continue
-                    if decl_order[ref] <= decl_order[i["tid"]]:
-                        continue  # referent initialised earlier: fine
                     rt = F.type(ref)
                     site = "%s::%s/base-%s-gets-%s" % (t.get("tmpl") or t["name"], t.get("tmpl") or t["name"], (F.type(i["tid"]) or {}).get("tmpl"), rt.get("tmpl") or rt.get("name"))
+                    if decl_order[ref] <= decl_order[i["tid"]]:
+                        # referent is an earlier base: constructed before the base that receives it
+                        ctx.instance("C10.base-order", site, {"record": F.tname(t["id"], 1)[:140], "loc": F.floc(c["f"]), "referent_initialised_first": True})
+                        continue
                     # methods of the referent (and its bases)
                     owners = set([ref] + F.all_bases(ref))
                     ctor_f = None
